@@ -76,10 +76,10 @@ PROPS = {
         "prims": ["once"],
         "fields": ["out", "words", "val", "drops", "at"],
         "monitors": ["C04"],
-        "assumptions": ["initialiser futures are scripted (ok / err / panic / pending / cancelled at any await point); blocking forms are not in the model",
+        "assumptions": ["initialiser futures are scripted (ok / err / panic / pending / cancelled at any await point); the blocking forms are modelled by their resume path only (C08_blocking_*_is_poll)",
                         "publication order of ptr::write and store(2, Release) is not in this model (memory-ordering table)"],
-        "partial": ["'dropped exactly once' is monitored on the implementation (per-instance drop log) and compared as a drop count; the serial-uniqueness theorem is pending",
-                    "thread interleavings; blocking forms"],
+        "partial": ["'dropped exactly once' is a theorem of the model (C04_accounting, C04_dropped_once); on the implementation it is monitored (per-instance drop log) and compared as a drop count",
+                    "thread interleavings of the wake-up side; the blocking forms enter through C08_blocking_*_is_poll only"],
     },
     "C08": {
         "atomics": True,
@@ -175,7 +175,7 @@ PROPS = {
         "monitors": ["C05"],
         "assumptions": ["polls are atomic (single-threaded executor)",
                         "blocking waiters: a parked thread is re-polled when woken (parking unparks the right thread)"],
-        "partial": ["thread interleavings; lock_blocking waiters parked on a thread"],
+        "partial": ["thread interleavings; lock_blocking is covered by C05_blocking_is_poll (resume path = poll of a notified future), the park/unpark itself is not modelled"],
     },
     "C13": {
         "modules": ["ALock.Props.C13"],
